@@ -42,6 +42,8 @@ def main():
             status = 'CAUGHT' if fired and named else ('WRONG-RULE' if fired else 'MISSED(exit %d)' % p.returncode)
             if m.get('benign'):
                 status = 'SILENT-OK' if p.returncode == 0 else 'FALSE-ALARM(exit %d)' % p.returncode
+                if m['benign'] == 'noverdict' and p.returncode == 2 and 'VIOLATION' not in p.stdout:
+                    status = 'SILENT-OK'      # a restructuring the structure-bound rules decline to judge: no verdict, and no alarm
             print('%-14s %-4s %s' % (status, m['prop'], m['name']))
             if status not in ('CAUGHT', 'SILENT-OK'):
                 ok = False
